@@ -794,11 +794,11 @@ add('Constant', 'C08', b_const, lambda c, v: [c[1]], [(1, 0), (1, 1), (4, 9), (8
 # --------------------------------------------------------------------------- sizes beyond a machine word
 # Python integers are unbounded but floats, numpy scalars, struct formats and Verilog literals are not: every block also runs at
 # 64 bits, just above (65) and well above (100) -- beyond the 53 bits a double holds -- in both tiers.
-def extend(names, cfgs):
+def extend(names, cfgs, quick=True):
     for n in names if isinstance(names, (list, tuple)) else [names]:
         e = by_name(n)
         for c in cfgs:
-            if c not in e.quick:
+            if quick and c not in e.quick:
                 e.quick.append(c)
             if c not in e.thorough:
                 e.thorough.append(c)
@@ -815,7 +815,8 @@ extend(['ShiftLeftConstant', 'ShiftRightConstant'], [(64, 0, 64), (64, 1, 64), (
 extend(['RotateLeftConstant', 'RotateRightConstant'], [(64, 1, 64), (64, 63, 64), (100, 1, 100), (100, 64, 100), (65, 33, 65)])
 extend(['ShiftLeft', 'ShiftRight', 'ShiftRight(arith=True)', 'ShiftRight(arith=wire)'], [(64, 6, 64), (64, 7, 64), (100, 7, 100), (65, 7, 65)])
 extend(['RotateLeft', 'RotateRight'], [(32, 5, 32), (64, 6, 64), (100, 7, 100)])
-extend('CountLeadingZeros', [(64, 7), (65, 7), (100, 7)])
+extend('CountLeadingZeros', [(64, 7)])
+extend('CountLeadingZeros', [(65, 7), (100, 7)], quick=False)     # building the 100-bit tree takes seconds
 extend('BinaryToBCD', [(16, 20), (32, 40), (64, 80)])
 extend(['And', 'Or', 'Xor', 'Nor'], [(2, 64), (3, 65), (2, 100), (9, 3), (12, 1)])
 extend(['And2', 'Or2', 'Xor2', 'Nand2', 'Nor2'], [(64,), (65,), (100,)])
